@@ -83,7 +83,7 @@ def lifecycle_part(ev, fnd, unknown, part, cfg, slots, bins, shards, per_state=N
     if r.violation:
         unknown.append({"kind": "model", "tlc": r.violation})
         return 0
-    init = {"objs": [{"live": False, "k_set": []} for _ in range(slots)], "buf": {"some": False, "k_set": []}}
+    init = {"objs": [{"live": False, "k_set": [], "filt": []} for _ in range(slots)], "buf": {"some": False, "k_set": []}}
     g = vf.StateGraph.from_tlc(r.outfile, init_id=init)
     ev.add_tlc(part, r, {"graph_states": len(g.obs), "graph_edges": g.nedges, "cfg": cfg})
     work = os.path.join(vf.BUILD, "work", "%s_%s_%d" % (PROP, part, os.getpid()))
@@ -109,7 +109,7 @@ def sanitized_other_drivers(ev, unknown, tier):
     persistence-matrix models are rebuilt with ASan+UBSan and run on (a part of) their state graphs."""
     total = 0
     # simplex tree: complete 4-vertex / 1-value graph, two option-set groups in quick, all in thorough
-    groups = [0, 3] if tier == "quick" else st_common.GROUPS
+    groups = [[0, 3][vf.seed() % 2]] if tier == "quick" else st_common.GROUPS
     bins = st_common.build_replay(groups, sanitize="address,undefined")
     r = vf.tlc("MC_SimplexTree", "MC_SimplexTree_q4.cfg", workers=1, timeout=1100)
     g = vf.StateGraph.from_tlc(r.outfile, init_id=[])
@@ -117,7 +117,7 @@ def sanitized_other_drivers(ev, unknown, tier):
     work = os.path.join(vf.BUILD, "work", "%s_san_st_%d" % (PROP, os.getpid()))
     env = dict(ASAN_ENV)
     env.update({"VF_NV": "4", "VF_MAXDIM": "3", "VF_LABELS": "id"})
-    summ, devs, crashes, nb = vf.replay(g, bins, work, env=env, shards=3, max_edges_per_state=None if tier == "thorough" else 25,
+    summ, devs, crashes, nb = vf.replay(g, bins, work, env=env, shards=6, max_edges_per_state=None if tier == "thorough" else 10,
                                         rnd=random.Random(vf.seed()))
     ev.parts["sanitized_simplex_tree_replay"] = {"behaviours": sum(s["behaviours"] for s in summ.values()), "configs": len(summ)}
     total += ev.parts["sanitized_simplex_tree_replay"]["behaviours"]
@@ -133,7 +133,9 @@ def sanitized_other_drivers(ev, unknown, tier):
         work = os.path.join(vf.BUILD, "work", "%s_san_pm%d_%d" % (PROP, fam, os.getpid()))
         env = dict(ASAN_ENV)
         env.update({"VF_P": "2"})
-        summ, devs, crashes, nb = vf.replay(g, mb, work, env=env, shards=4, rnd=random.Random(vf.seed()), walks=60, walk_len=12)
+        summ, devs, crashes, nb = vf.replay(g, mb, work, env=env, shards=6, rnd=random.Random(vf.seed()),
+                                            walks=20 if tier == "quick" else 60, walk_len=12,
+                                            max_edges_per_state=8 if tier == "quick" else None)
         name = "sanitized_matrix_replay_family%d" % fam
         ev.parts[name] = {"behaviours": sum(s["behaviours"] for s in summ.values()), "configs": len(summ)}
         total += ev.parts[name]["behaviours"]
@@ -193,7 +195,8 @@ def main(tier):
     total += lifecycle_part(ev, fnd, unknown, "lifecycle_tree_2slots", "MC_Lifecycle_tree2.cfg", 2, bins, 6,
                             per_state=2 if tier == "quick" else None)
     lap("lifecycle_tree_2slots")
-    total += lifecycle_part(ev, fnd, unknown, "lifecycle_tree_3slots", "MC_Lifecycle_tree3.cfg", 3, bins, 2)
+    total += lifecycle_part(ev, fnd, unknown, "lifecycle_tree_3slots", "MC_Lifecycle_tree3.cfg", 3, bins, 4,
+                            per_state=6 if tier == "quick" else None)
     lap("lifecycle_tree_3slots")
     total += matrix_lifecycle_part(ev, fnd, unknown, tier)
     lap("lifecycle_matrix")
